@@ -448,6 +448,7 @@ type fragOpts struct {
 	extraMoof  int  // boxes added to moof before EncryptFragment (after traf): free / pssh-less unknown
 	extraTraf  int  // boxes added to traf before EncryptFragment
 	moofBefore bool // put an extra box BEFORE the traf
+	wide       wideOpts // second extension: every kind of non-protection box (wide.go)
 }
 
 type fragResult struct {
@@ -526,6 +527,7 @@ func buildFragment(trackID uint32, samples [][]byte, o fragOpts, r *hx.Rng) *mp4
 			_ = frag.Moof.AddChild(b)
 		}
 	}
+	applyWideFragment(frag, o.wide, len(samples))
 	return frag
 }
 
@@ -534,6 +536,7 @@ func (e *env) runFragment(codec byte, scheme string, key, iv []byte, samples [][
 	res := fragResult{}
 	initF, err := mp4.DecodeFile(bytes.NewReader(e.initFor(codec)))
 	must(err)
+	applyWideInit(initF.Init, o.wide)
 	res.init = initF
 	kid, _ := mp4.NewUUIDFromString(kidHex)
 	ipd, err := mp4.InitProtect(initF.Init, key, iv, scheme, kid, nil)
